@@ -14,7 +14,7 @@ Rec(x) == hist' = Append(hist, x)
 Lm(c, last) == IF last = 0 THEN "zero" ELSE IF last = 2147483647 THEN "max" ELSE "at"
 
 GEnv ==
-    \/ \E r \in Reqs, b \in MCBodies : (\A q \in Reqs : q < r => req[q].st # "new") /\ Start(r, b)
+    \/ \E r \in Reqs, b \in MCBodies : (\A q \in Reqs : q < r => req[q].st # "new") /\ Start(r, b, BodyLen(b))
           /\ Rec([e |-> "start", body |-> b])
     \/ \E r \in Reqs : Cancel(r) /\ Rec([e |-> "cancel", r |-> r])
           /\ (req[r].st # "done" \/ (req[r].c \in Conns /\ req[r].s \in open[req[r].c] \ doomed[req[r].c]))
